@@ -826,6 +826,15 @@ func oracle(c *harness.C, k cell, o *out) string {
 	if (k.Strategy == "honest" || k.Strategy == "D-honest") && len(done) != k.NN-1 {
 		bad("control", "c05-honest-control-fails", "with an honest 'deviator' not every party completed")
 	}
+	if len(done) > 0 && len(done) < len(honestOf(k)) {
+		// "they all complete consistently or they return an error": with one deviating participant
+		// the honest parties stand or fall together (reliable broadcast needs a voucher from every
+		// other honest party before anybody is handed a broadcast-class message, and every honest
+		// party waits for everybody's commitment and key) - the deviator does not get to choose who
+		// ends up holding a share
+		c.Add("partial_completions", 1)
+		bad("all-complete-or-all-fail", "c05-partial-completion", fmt.Sprintf("honest parties %v completed, the other honest parties returned an error", done))
+	}
 	if len(done) == 0 {
 		return outcome
 	}
@@ -984,6 +993,16 @@ func gen(c *harness.C) []harness.Case {
 	}
 	c.Note("rule", "cells = backend (BLS, PS) x (n,t) incl. t=n x position of the deviating participant x strategy from the catalogue ("+strings.Join(strategies, ", ")+") x victim set (every non-empty subset of the honest parties); the deviator is a real instance behind an output filter; default schedule per cell (+ all <=1-deviation schedules where stated); distinct_nontrivial = distinct (cell, outcome, step count)")
 	if r := c.Replay; r != nil {
+		var rk struct {
+			Rekey   bool   `json:"rekey"`
+			Backend string `json:"backend"`
+			N, T    int
+		}
+		if json.Unmarshal(r, &rk) == nil && rk.Rekey {
+			cs := rekeyRevealCase(rk.Backend, rk.N, rk.T)
+			cs.ID = os.Getenv("VERIF_ONLY")
+			return []harness.Case{cs}
+		}
 		var k cell
 		if json.Unmarshal(r, &k) == nil {
 			return []harness.Case{{ID: os.Getenv("VERIF_ONLY"), Run: func(c *harness.C) { runCell(c, k, 0) }}}
@@ -1039,6 +1058,11 @@ func gen(c *harness.C) []harness.Case {
 					}
 				}
 			}
+		}
+	}
+	if !malformedOnly {
+		for _, be := range backendsLinked {
+			cases = append(cases, rekeyRevealCase(be, 3, 2), rekeyRevealCase(be, 3, 3))
 		}
 	}
 	sort.SliceStable(cases, func(i, j int) bool { return false })
